@@ -149,7 +149,7 @@ Definition field_ok (f : sfield) (vals : vals_t) : bool :=
       forallb word_ok ws && dots_text_ok (sf_name f) ws dots &&
       match lookup vals (sf_name f), sf_ty f with
       | VNone, _ => true
-      | VBool _, TBool => negb (has_ph ws)
+      | VBool _, TBool => negb (has_ph ws) && negb dots
       | VAtom a, (TStr | TInt | TFloat | TPath) => atom_ok a && inert ws vals (render_atom a)
       | VList l, TMulti => forallb (fun a => atom_ok a && inert ws vals (render_atom a)) l
       | VList l, TList =>
